@@ -6,6 +6,7 @@ mod format;
 mod history;
 mod hooks;
 mod ops;
+mod probes;
 mod props;
 mod race;
 mod scen;
